@@ -24,11 +24,22 @@ def activeRestricted (V : Nat) : List RevId :=
    (if V < 19 then [] else if V < 25 then [.seccompR19] else [.seccompR25])
 
 
+/-- the control revisions the Standard has in force at a level and version -/
+def stdRevs (l : Level) (v : Ver) : List RevId :=
+  match l with
+  | .privileged => []
+  | .baseline => activeBaseline (clampV 32 v)
+  | .restricted => activeRestricted (clampV 32 v)
+
 /-- the Standard's per-control results for a pod at a level and version -/
 def stdEval (l : Level) (v : Ver) (p : Pod) : List CheckResult :=
   match l with
   | .privileged => []
   | .baseline => (activeBaseline (clampV 32 v)).map (fun r => runRev Std.publishedTables false r p)
   | .restricted => (activeRestricted (clampV 32 v)).map (fun r => runRev Std.publishedTables false r p)
+
+theorem stdEval_eq (l : Level) (v : Ver) (p : Pod) :
+    stdEval l v p = (stdRevs l v).map (fun r => runRev Std.publishedTables false r p) := by
+  cases l <;> rfl
 
 end PSA
